@@ -81,3 +81,21 @@ func uniq(l []string) []string {
 	}
 	return out
 }
+
+// c02Invalidate: now and then a request that is rejected deep inside (after registries and defaults have been
+// consulted): an unknown ordering name, a distillation function that fails validation, an unknown fatigue function
+func c02Invalidate(r *Rng, q *Req) {
+	switch k := r.Intn(100); {
+	case k < 4:
+		bl, _ := q.Body["biases"].([]interface{})
+		name := []string{"criteriaOmission", "preferenceReversal"}[r.Intn(2)]
+		q.Body["biases"] = append(bl, J{"name": name, "props": J{"ratio": 0.5, "ordering": []string{"weekest", "zzz", "Random"}[r.Intn(3)]}})
+	case k < 7:
+		if q.Method == "electreIII" {
+			q.Body["methodParameters"].(J)["electreDistillation"] = []J{{"a": 1, "b": -0.05}, {"a": 0, "b": -1}}[r.Intn(2)]
+		}
+	case k < 9:
+		bl, _ := q.Body["biases"].([]interface{})
+		q.Body["biases"] = append(bl, J{"name": "fatigue", "props": J{"function": "noSuchFunction", "params": J{}}})
+	}
+}
